@@ -28,15 +28,4 @@ protocol names exactly, keeps the networks apart); equal prefixes give equal nam
 theorem name_injective (p₁ p₂ : List Char) (h : p₁ ++ protocolSuffix = p₂ ++ protocolSuffix) : p₁ = p₂ :=
   Proofs.CidLayer.name_injective p₁ p₂ h
 
-/-- Translator obligations: the same suffix literal at the three call sites, the guard
-character, the concatenation format. -/
-theorem protocol_sites_spec :
-    Generated.implProtocolSites =
-      [("builder.rs", String.ofList protocolSuffix), ("client.rs", String.ofList protocolSuffix),
-       ("server.rs", String.ofList protocolSuffix)] := by decide
-
-theorem prefix_guard_spec : Generated.implPrefixGuardChar = "/" := by decide
-
-theorem protocol_format_spec : Generated.implProtocolFormat = "{prefix}{protocol}" := by decide
-
 end Beetswap.Props.C20
